@@ -3,4 +3,4 @@ From LV Require Import Lib.Bytes Lib.Prelude Model.C18.
 Extraction Language OCaml.
 Extraction "c18_model.ml"
   prelude_byte_of_N prelude_N_of_byte prelude_Z_of_N prelude_Z_opp prelude_nat_of_N prelude_N_of_nat
-  init step restart restart_with valid_name listed disk db completed cache alive save.
+  init step restart restart_with valid_name listed disk db completed cache alive save marked announce_list.
